@@ -133,6 +133,9 @@ def build(case):
             # a Quantity subclass with state of its own: longitudes wrapped at 180 deg (negative entries)
             from astropy.coordinates import Longitude
             cube.extra_coords.add(f"q{k}", ec["axis"], Longitude((v - 40) * u.deg, wrap_angle=180 * u.deg), physical_types=f"custom:q{k}")
+        elif ec["kind"] == "quantity" and (case["wseed"] + k) % 4 == 1:
+            # a table of whole numbers held in an integer dtype (channel numbers): half-way values are not integers
+            cube.extra_coords.add(f"q{k}", ec["axis"], u.Quantity(np.round(v).astype(np.int64), u.m, dtype=np.int64), physical_types=f"custom:q{k}")
         elif ec["kind"] == "quantity":
             cube.extra_coords.add(f"q{k}", ec["axis"], v * u.m, physical_types=f"custom:q{k}")
         elif ec["kind"] == "time":
